@@ -47,7 +47,7 @@ func loadSpec() *specTable {
 	}
 	p := os.Getenv("VERIF_SPEC")
 	if p == "" {
-		p = "/verif/spec/layouts.json"
+		p = verifDir() + "/spec/layouts.json"
 	}
 	b, err := os.ReadFile(p)
 	if err != nil {
